@@ -26,6 +26,12 @@ def scripts(rng, n_random):
         out.append([("create", 1, 5), ("learn", 1, 1), ("mutate", 1, k), ("learn", 1, 2), ("learn", 1, 3), ("save", 1, 1), ("clone", 1, 2, 7),
                     ("learn", 1, 4), ("mutate", 1, MUT[(MUT.index(k) + 1) % 4]), ("learn", 1, 5),
                     ("loadinto", 1, 1), ("learn", 1, 6), ("learn", 2, 6), ("discard", 2), ("loadnew", 1, 3)])
+    # the population helper of the training loops, with and without overwriting: a second save at the same step count (more
+    # gradient steps, no new environment steps) must be what a later load restores
+    for ow in (False, True):
+        out.append([("create", 1, 6), ("learn", 1, 1), ("savepop", 1, 1, ow), ("learn", 1, 2), ("mutate", 1, "param"), ("learn", 1, 3),
+                    ("savepop", 1, 1, ow), ("loadnew", 1, 2), ("learn", 1, 4), ("learn", 2, 4), ("book", 1), ("savepop", 1, 2, ow),
+                    ("loadinto", 2, 2), ("learn", 1, 5), ("learn", 2, 5)])
     for j in range(n_random):
         ops = [("create", 1, 40 + j)]
         for _ in range(rng.randint(2, 5)):
